@@ -80,6 +80,8 @@ class DecodeState:
         byte_length = (bit_length + self.cursor_bit_position + 7) // 8
         if self.cursor_byte_position + byte_length > len(self.coded_message):
             raise DecodeError(f"Expected a longer message.")
+        if bit_length > 64 and base_data_type in (DataType.A_INT32, DataType.A_UINT32):
+            raise DecodeError(f"Integers cannot occupy more than 64 bits (is: {bit_length})")
         if bit_length % 8 != 0 and base_data_type not in (DataType.A_INT32, DataType.A_UINT32):
             # e.g., a bit length specified by a length key that is
             # part of the PDU
